@@ -33,7 +33,7 @@ impl Transport for Rec {
 type Sock = UtpSocket<Rec, crate::traits::DefaultUtpEnvironment>;
 type Disp = Dispatcher<Rec, crate::traits::DefaultUtpEnvironment>;
 
-//@ harness id=wire.k.rst_for_refused_syn kind=complete props=C11,C17 tier=quick timeout=900 text="the datagram Dispatcher::try_send_rst hands to the transport for ANY refused SYN header: exactly 20 bytes, version 1, type ST_RESET, no extensions, and it carries the connection id the initiator put into its SYN (the id owed to that direction) and acknowledges the SYN's sequence number"
+//@ harness id=wire.k.rst_for_refused_syn kind=complete props=C11,C17,C13 tier=quick timeout=900 text="the datagram Dispatcher::try_send_rst hands to the transport for ANY refused SYN header: exactly 20 bytes, version 1, type ST_RESET, no extensions, and it carries the connection id the initiator put into its SYN (the id owed to that direction) and acknowledges the SYN's sequence number"
 #[kani::proof]
 #[kani::unwind(42)]
 fn rst_for_refused_syn() {
